@@ -6,6 +6,7 @@ Fails closed."""
 import re
 
 from ..common import gen_write
+from .c02_util import read_code
 from ..rustscan import ExtractError, read, mask, block_after, match_arms, enum_variants, match_brace
 
 GE = "prqlc/prqlc/src/sql/gen_expr.rs"
@@ -76,7 +77,7 @@ def extract():
 
     def soft(msg):
         info["shape_errors"].append(msg)
-    src = read(GE)
+    src = read_code(GE)
     m = mask(src)
     info["assoc_variants"] = [v for v, _ in enum_variants(GE, "Associativity")]
     if info["assoc_variants"][:3] != ["Left", "Both", "Right"] or not all(re.fullmatch(r"[A-Za-z]+", v) for v in info["assoc_variants"]):
@@ -233,7 +234,7 @@ def extract():
         soft("translate_expr: CASE default handling changed")
 
     # operators.rs: translate_operator
-    osrc = read(OPS)
+    osrc = read_code(OPS)
     om = mask(osrc)
     s2, e2 = block_after(osrc, om, r"\bfn\s+translate_operator\s*\([^{]*\{")
     sq = squeeze(om[s2:e2])
